@@ -128,6 +128,7 @@ let preds : (string * (val0 list -> bool)) list = [
   ("c16_pred", c16_pred); ("c16_reject_pred", c16_reject_pred); ("c16_nfkc_pred", c16_nfkc_pred); ("c16_reencode_pred", c16_reencode_pred);
   ("c07_enc_pred", c07_enc_pred oracles);
   ("c07_auto_pred", c07_auto_pred);
+  ("c07_derived_pred", c07_derived_pred);
   ("c19_oom_pred", c19_oom_pred); ("c11_pred", c11_pred); ("c13_pred", c13_pred); ("c14_pred", c14_pred); ("c06_pred", c06_pred); ("kf_f30", kf_f30); ("c15_url_pred", c15_url_pred); ("kf_f23", kf_f23); ("c08_pred", c08_pred); ("c08_cmp_pred", c08_cmp_pred); ("c18_pred", c18_pred); ("kf_f13", kf_f13); ("c02_pred", c02_pred); ("kf_f1b_c02", kf_f1b_c02); ("kf_f18", kf_f18); ("kf_f19", kf_f19); ("kf_f28", kf_f28); ("kf_f7_base", kf_f7_base); ("kf_f31", kf_f31); ("kf_f17_base", (fun l -> kf_f17_with oracles.o_ip_parse [List.nth l 4])); ("c04_url_pred", c04_url_pred); ("kf_f14b", kf_f14b); ("kf_f27", kf_f27);
   ("c04_quote_pred", (function [WNat i; WStr s; WStr o] -> c04_quote_pred (nat_of_int (int_of_n i)) s o | _ -> false));
   ("c03_quote_pred", (function [WNat i; WStr s; WStr o] -> c03_quote_pred (nat_of_int (int_of_n i)) s o | _ -> false));
